@@ -20,7 +20,8 @@ def isSp (c : Char) : Bool :=
 def isDig (c : Char) : Bool := '0' ≤ c && c ≤ '9'
 def dval (ds : List Char) : Nat := ds.foldl (fun a c => a * 10 + (c.toNat - 48)) 0
 
-/-- nearest binary64 to `num / den` (`num, den > 0`), ties to even; `none` on overflow. -/
+/-- nearest binary64 to `num / den` (`num, den > 0`), ties to even, and whether `strtod` sets
+`ERANGE` for underflow (tiny and inexact); `none` on overflow. -/
 def roundRatio (num den : Nat) : Option (Nat × Bool) :=
   -- e with 2^52 ≤ num / (den * 2^e) < 2^53, clamped below at -1074 (written with an offset:
   -- `eo = e + 1074 ≥ 0`)
@@ -36,9 +37,13 @@ def roundRatio (num den : Nat) : Option (Nat × Bool) :=
   let r := p.1 % p.2
   let q1 := if 2 * r > p.2 ∨ (2 * r = p.2 ∧ q % 2 = 1) then q + 1 else q
   let (q2, eo2) := if q1 = 2 ^ 53 then (2 ^ 52, eo + 1) else (q1, eo)
-  if q2 < 2 ^ 52 then some (q2, r = 0)                       -- subnormal (eo = 0) or zero
+  -- tininess is detected after rounding (x86-64 glibc): the value rounded to 53 bits with an
+  -- unbounded exponent is below 2^-1022, i.e. value < 2^-1022 - 2^-1076
+  let tiny : Bool := eo = 0 ∧ q < 2 ^ 52 ∧ num <<< 1076 < (2 ^ 54 - 1) * den
+  let erange : Bool := tiny ∧ r ≠ 0
+  if q2 < 2 ^ 52 then some (q2, erange)                      -- subnormal (eo = 0) or zero
   else if eo2 + 1 > 2046 then none
-  else some ((eo2 + 1) * 2 ^ 52 + (q2 - 2 ^ 52), r = 0)
+  else some ((eo2 + 1) * 2 ^ 52 + (q2 - 2 ^ 52), erange)
 
 def strtod (s : List Char) : Res :=
   let s1 := s.dropWhile isSp
@@ -83,7 +88,7 @@ def strtod (s : List Char) : Res :=
                  else roundRatio m (10 ^ (-e10).toNat)
         match r with
         | none => .overflow neg
-        | some (b, exact) => .bits (sign + b) (b < 2 ^ 52 ∧ ¬ exact)
+        | some (b, er) => .bits (sign + b) er
 
 /-- `(float) d` for a finite binary64 pattern: round to nearest even, overflow to ±inf. -/
 def toFloat32 (b : Nat) : Nat :=
